@@ -3,13 +3,16 @@ Driver ops of the connection / client / STOMP receivers (C05, FV.Model.Receivers
 
   arl <stream> <chunk>      adapter read loop over the peer's stream then END_OF_FILE
   ssa <stream> <chunk>      FSimpleServer.accept with the draining processor
-  stm <bodies>              STOMP processMessages: the bodies, then one well-formed body
+  ssp <stream> <chunk>      the same with FBaseProcessor + `ping` (oracle only: always `held`)
+  stm <bodies> <shapes>     STOMP processMessages: the bodies (shapes = which MESSAGE headers each frame carried;
+                            they do not reach the loop), then one well-formed body
   prp <method> <reply>      FStandardClient.processReply (binary protocol, result = {0: string})
 
 `chunk` is how the harness cuts the stream into reads; the model does not depend on it.
 -/
 import Driver.Util
 import FV.Model.Receivers2
+import FV.Model.Receivers3
 
 namespace Driver
 open FV FV.Recv2
@@ -28,13 +31,30 @@ def stepReceivers2 (op : String) (args : List String) : Option String :=
     pure (showRes (fun e =>
       let ret := match e.ret with | none => "ok" | some c => "err:" ++ errName c
       s!"ret={ret} handled={e.handled} rejected={if e.ret.isSome then 1 else 0}") (accept s))
-  | "stm", [ms] => do
+  | "ssp", [x, _chunk] => do
+    -- FSimpleServer.accept with the real FBaseProcessor and a `ping` method: oracle only on the Go side
+    -- (what Thrift's readers make of the bytes is not modelled); `held` = the property oracle held
+    let _ ← unhex x
+    pure "held"
+  | "stm", [ms, _shapes] => do
     let msgs ← if ms == "." then some [] else (ms.splitOn ",").mapM unhex
     -- the harness's callback accepts a payload iff it starts with the byte 0; it appends one
     -- well-formed message after the sequence
     let cb : Bytes → Bool := fun p => p.head? == some 0
     pure (showRes (fun w => s!"delivered={w.delivered} acked={w.acked} exited={!w.alive}")
       (Stomp.recvAll cb Stomp.init (msgs ++ [[0, 0, 0, 1, 0]])))
+  | "prp", [m, x] => do
+    let m ← unhex m
+    let b ← unhex x
+    pure (showRes (fun o =>
+      let st := match o.stage with
+        | .hdr e => "hdr:" ++ errName e
+        | .msg => "msg"
+        | .wrongMethod => "wrong-method"
+        | .exception => "exception"
+        | .badType => "bad-type"
+        | .reply => "reply"
+      s!"stage={st} hdrs={pairsOf o.added}") (Recv3.processReply m b))
   | _, _ => none
 
 end Driver
